@@ -162,7 +162,7 @@ CHECKS = {
                  "batch writers are scheduled by the seeded scheduler at their channel operations and around the batch read-modify-write; the input "
                  "reader delivers seeded short reads and, in the fault population, fails at a seeded offset. The full dump of the product must equal "
                  "the multiset the line-by-line codec emits sequentially (plus range points and feature record); a rejected line or read error must "
-                 "fail the compilation; with no fault pending it must terminate (a state with nothing enabled and no timer is a deadlock). Thorough "
+                 "fail the compilation; a compilation that was handed a failing RocksDB call (1 run in 8 of the RocksDB targets) may fail, but if it reports success the database must be right; with no fault pending it must terminate (a state with nothing enabled and no timer is a deadlock). Thorough "
                  "tier: 1 in 30 runs compiles 70000-100000 records on real parallelism with the hooks in perturbation mode so that the bulk loader "
                  "splits into several buckets; 1 run in 12 (both tiers) compiles 1500-4000 records in batch mode (batch size 5/20/40, parallelism 0/2/4/8) free-running on four "
                  "real threads, so that many small batches sharing hot keys are in flight and interleavings finer than the yield points are reached. "
@@ -171,8 +171,9 @@ CHECKS = {
             "real": ["dnsdata.ParseStream / parse (scanner, worker pool)", "dnsdata/cdb.CreateCDBFromReader + go-cdb writer", "rdb.Compile: compileBuilder "
                      "(Builder, buckets, SST ingestion) and compileBatches (parallel ExecuteBatch under writeMutex)", "subnet rearranger (Accum.MarshalMap)", "RocksDB (cgo)"],
             "stub": [],
-            "simulated": ["goroutine scheduling at the parser's and batch writers' yield points (seeded)", "input io.Reader (short reads, error at offset)"],
-            "not_run": ["rdb.DBI error injection inside rdb.Compile (no seam reaches the RDB it creates; not added, see DESIGN)"],
+            "simulated": ["goroutine scheduling at the parser's and batch writers' yield points (seeded)", "input io.Reader (short reads, error at offset)",
+                          "a failing low-level RocksDB call (GetMulti / ExecuteBatch / IngestSSTFiles / Put) inside the compilation, through the verif-only seam rdb.VerifSetCompileWrap"],
+            "not_run": [],
         },
         "assumptions": ["which blocked parser worker receives a line is the Go runtime's choice: replay is 'same verdict for the same scenario', the oracle is schedule-insensitive",
                         "conflicting duplicate subnets (ill-formed, order dependent) are not generated"],
